@@ -109,8 +109,105 @@ theorem tampered_current_hop_not_forwarded (mac : MacFn) (cfg : RCfg) (hinj : Ma
   rw [this] at hm
   cases hm
 
-/-- the hypothesis is satisfiable: a MAC function that returns its input (as a number) never
-    collides -/
-def idMac : MacFn := fun _ inp => inp.foldl (fun acc b => acc * 256 + b.toNat) 0
+/-- a router that does not let the packet continue ends the run -/
+theorem run_stops (mac : MacFn) (net : Net) (now src dst fuel a r : Nat) (arr : Arrival)
+    (c : Cursor) (tr : List (Nat × Nat))
+    (h : (routerStep mac ⟨(net a).key, r, (net a).ifaces⟩ now arr (a == src) (a == dst) c).accepting = false) :
+    ∃ o, run mac net now src dst (fuel + 1) a r arr c tr = .stopped a r arr o tr := by
+  unfold run
+  cases hs : routerStep mac ⟨(net a).key, r, (net a).ifaces⟩ now arr (a == src) (a == dst) c with
+  | deliver c' => rw [hs] at h; cases h
+  | forward e c' => rw [hs] at h; cases h
+  | slow t k e c' => exact ⟨_, rfl⟩
+  | alert s e c' => exact ⟨_, rfl⟩
+  | drop => exact ⟨_, rfl⟩
+
+/-- **C04 at full strength**: on a path as in C02, altering any single protected value of any hop
+    or info field prevents delivery (and the packet is stopped no later than at the AS whose hop
+    field's MAC input depends on the value). -/
+def C04_full : Prop :=
+  ∀ (mac : MacFn) (net : Net) (now : Nat) (edges : List Edge) (src dst : Nat) (c c' : Cursor),
+    (∀ a, MacInj mac (net a).key) →
+    WFNet net → AllUp net → Joinable mac net edges src dst → pathOf edges = some c →
+    Unexpired now c →
+    -- c' is c with exactly one protected value of one hop or info field changed
+    (toFlat c').segLens = (toFlat c).segLens → (toFlat c').currHF = 0 →
+    ((toFlat c').infos = (toFlat c).infos ∧
+        ∃ k : Nat, (toFlat c').hops[k]? ≠ (toFlat c).hops[k]? ∧
+          ∀ j : Nat, j ≠ k → (toFlat c').hops[j]? = (toFlat c).hops[j]?) ∨
+      ((toFlat c').hops = (toFlat c).hops ∧
+        ∃ k : Nat, (toFlat c').infos[k]? ≠ (toFlat c).infos[k]? ∧
+          ∀ j : Nat, j ≠ k → (toFlat c').infos[j]? = (toFlat c).infos[j]?) →
+    ∀ a tr cf, send mac net now src dst c' ≠ .delivered a tr cf
+
+/-- **run level, first hop** (`_partial`: the altered value belongs to the first hop field of the
+    path or to its info field): a packet that was delivered is no longer delivered — it does not
+    even leave the first router, whichever router of the source AS the host hands it to. -/
+theorem tamper_first_hop_not_delivered_partial (mac : MacFn) (net : Net) (now src dst : Nat)
+    (hinj : MacInj mac (net src).key) (c c' : Cursor)
+    (a : Nat) (tr : List (Nat × Nat)) (cf : Cursor)
+    (hdel : send mac net now src dst c = .delivered a tr cf)
+    (hdp : determinePeer c' = determinePeer c)
+    (r : InRange c.info c.cur) (r' : InRange c'.info c'.cur)
+    (hne : protectedOf c'.info c'.cur ≠ protectedOf c.info c.cur)
+    (hone : c'.cur.mac = c.cur.mac ∨ inputOf c'.info c'.cur = inputOf c.info c.cur) :
+    ∀ a' tr' cf', send mac net now src dst c' ≠ .delivered a' tr' cf' := by
+  -- the genuine packet passed the first router
+  have hacc : (routerStep mac ⟨(net src).key, entryRouter net src c, (net src).ifaces⟩ now .host
+      (src == src) (src == dst) c).accepting = true := by
+    cases hb : (routerStep mac ⟨(net src).key, entryRouter net src c, (net src).ifaces⟩ now .host
+      (src == src) (src == dst) c).accepting with
+    | true => rfl
+    | false =>
+      obtain ⟨o, ho⟩ := run_stops mac net now src dst (2 * (toFlat c).hops.length + 1) src
+        (entryRouter net src c) .host c [] hb
+      unfold send fuelFor at hdel
+      rw [show 2 * (toFlat c).hops.length + 2 = 2 * (toFlat c).hops.length + 1 + 1 by omega, ho] at hdel
+      cases hdel
+  obtain ⟨p, hp, hm, _⟩ := routerStep_accepting mac _ now .host _ _ c hacc
+  have hic : ∀ x : Cursor, ingUpd x .host p = x := by
+    intro x; simp [ingUpd, Arrival.ifid]
+  rw [hic] at hm
+  -- the tampered one does not
+  have hrej := tampered_current_hop_not_forwarded mac
+    ⟨(net src).key, entryRouter net src c', (net src).ifaces⟩ hinj now .host (src == src) (src == dst)
+    c c' p (by rw [hdp]; exact hp) (by rw [hic]; exact r) (by rw [hic]; exact r')
+    (by rw [hic]; exact hm) (by rw [hic, hic]; exact hne) (by rw [hic, hic]; exact hone)
+  obtain ⟨o, ho⟩ := run_stops mac net now src dst (2 * (toFlat c').hops.length + 1) src
+    (entryRouter net src c') .host c' [] hrej
+  intro a' tr' cf' h
+  unfold send fuelFor at h
+  rw [show 2 * (toFlat c').hops.length + 2 = 2 * (toFlat c').hops.length + 1 + 1 by omega, ho] at h
+  cases h
+
+/-- an injective "MAC": the input itself, read as a number in base 257 with digits 1…256 -/
+def encMac : MacFn := fun _ inp => inp.foldr (fun b acc => b.toNat + 1 + 257 * acc) 0
+
+/-- the hypothesis `MacInj` is satisfiable -/
+theorem encMac_inj (k : Bytes) : MacInj encMac k := by
+  intro a
+  induction a with
+  | nil =>
+    intro b h
+    cases b with
+    | nil => rfl
+    | cons y ys =>
+      simp only [encMac, List.foldr] at h
+      omega
+  | cons x xs ih =>
+    intro b h
+    cases b with
+    | nil =>
+      simp only [encMac, List.foldr] at h
+      omega
+    | cons y ys =>
+      simp only [encMac, List.foldr] at h
+      have hx : x.toNat < 256 := x.toNat_lt
+      have hy : y.toNat < 256 := y.toNat_lt
+      have h1 : x.toNat = y.toNat := by omega
+      have h2 : List.foldr (fun b acc => b.toNat + 1 + 257 * acc) 0 xs =
+          List.foldr (fun b acc => b.toNat + 1 + 257 * acc) 0 ys := by omega
+      have := ih ys h2
+      rw [this, UInt8.toNat_inj.1 h1]
 
 end Scion.C04
